@@ -383,6 +383,20 @@ def _flatten(ti: int, fi: int, cast_value: int) -> bool:
     text = tree.sql(dialect="duckdb")
     if cast_value == 1 and "F.VALUE ->> '$'" not in text:
         return False
+    # the flattened VALUE converted to text loses its JSON quotes wherever the FLATTEN stands in the FROM clause
+    shapes = [
+        "select f.value::varchar as r from lateral flatten(input => parse_json('[1]')) f",
+        "select f.value::varchar as r from t join lateral flatten(input => t.v) f",
+        "select x.value::string as r from t, lateral flatten(input => v) as x",
+        "with q as (select f.value as value from t, lateral flatten(input => v) f) select value::varchar as r from q",
+        "select value::varchar as r from t, lateral flatten(input => v)",
+        "select 1 as r from lateral flatten(input => parse_json(s)) f where f.value::varchar = 'c d'",
+    ]
+    shaped = emitted(shapes[(ti + fi) % len(shapes)])
+    casts_of_value = [c for c in shaped.find_all(exp.Cast) if isinstance(c.this, exp.Column) and c.this.name.upper() == "VALUE" and c.to.sql(dialect="duckdb") == "TEXT"]
+    scalars = [x for x in shaped.find_all(exp.JSONExtractScalar) if isinstance(x.this, exp.Column) and x.this.name.upper() == "VALUE"]
+    if casts_of_value or len(scalars) != 1:
+        return False
     return True
 
 
@@ -390,7 +404,8 @@ def _flatten(ti: int, fi: int, cast_value: int) -> bool:
     "C11.flatten_and_semi_structured_types",
     encodes=["fakesnow.transforms.semi_structured_types", "fakesnow.transforms.flatten", "fakesnow.transforms.flatten_value_cast_as_varchar"],
     bounds="5 spellings of VARIANT/OBJECT/ARRAY as column type and cast target (become JSON) x 4 FLATTEN inputs x 4 uses of the flattened VALUE: "
-    "LATERAL FLATTEN becomes UNNEST(CAST(input AS JSON[])) AS f(VALUE), VALUE::varchar becomes ->> '$'",
+    "LATERAL FLATTEN becomes UNNEST(CAST(input AS JSON[])) AS f(VALUE), VALUE::varchar becomes ->> '$' - also in 6 other shapes of the FROM clause (FLATTEN as the "
+    "FROM item itself, JOIN LATERAL, AS alias, through a CTE, without alias, inside a comparison)",
     timeout=(300, 600),
 )
 def flatten_types(ti: int, fi: int, cast_value: int) -> bool:
